@@ -211,6 +211,9 @@ func seedFromEnv() int {
 	return n
 }
 
+// closureKeys: functions verified in the current property run only as dependencies (see the dependency closure)
+var closureKeys = map[string]bool{}
+
 func runProperty(e *Engine, prop, tier, propsFile, evidence, replays, knownFile string, timeout int, dir string, t0 time.Time) int {
 	var cfg map[string]*PropConfig
 	data, err := os.ReadFile(propsFile)
@@ -261,7 +264,7 @@ func runProperty(e *Engine, prop, tier, propsFile, evidence, replays, knownFile 
 	undecided := []string{}
 	keys := append(append([]string{}, pc.Functions...), pc.Sweep...)
 	lemmaSeen := map[string]bool{}
-	closureKeys := map[string]bool{}
+	closureKeys = map[string]bool{}
 	for ki := 0; ki < len(keys); ki++ {
 		key := keys[ki]
 		var res *FuncResult
@@ -550,7 +553,11 @@ func writeEvidence(e *Engine, path, prop, tier string, pc *PropConfig, results [
 		for _, x := range r.Modular {
 			if !verifiedSomewhere[x] {
 				if ct := e.cf.Funcs[x]; ct != nil && ct.Trusted == "" {
-					assum["assumed contract (used by "+r.Key+", verified by no check): "+x] = true
+					if closureKeys[x] {
+						assum["contract of "+x+" (used by "+r.Key+"): its clauses are verified in this run as a dependency; the safety obligations of its body (index, nil, preconditions of its own callees) are verified by no check"] = true
+					} else {
+						assum["assumed contract (used by "+r.Key+", verified by no check): "+x] = true
+					}
 				}
 			}
 		}
